@@ -7,6 +7,7 @@ package main
 
 import (
 	"fmt"
+	"os"
 	"math/bits"
 	"sort"
 	"strings"
@@ -72,6 +73,7 @@ type Term struct {
 
 type TermStore struct {
 	liftDepth int
+	lift      bool // if-then-else lifting through sums (relational harnesses switch it on)
 	facts  map[*Term]bool // truth values implied by the path condition (learned from assumptions)
 	tab    map[string]*Term
 	nextID int
@@ -182,6 +184,9 @@ func (ts *TermStore) splitAdd(t *Term) (*Term, uint64) {
 }
 
 // linear normal form for +, -, unary minus: sum of coeff*atom + const (mod 2^w).
+var noLift = os.Getenv("GSE_NOLIFT") != ""
+var noFacts = os.Getenv("GSE_NOFACTS") != ""
+
 type linComb struct {
 	atoms map[*Term]uint64
 	c     uint64
@@ -207,7 +212,7 @@ func (ts *TermStore) linAdd(lc *linComb, t *Term, k uint64, depth int) {
 func (ts *TermStore) linBuild(lc *linComb, w int) *Term {
 	// lift a single if-then-else summand: ite(c,a,b) + rest  ==>  ite(c, a+rest, b+rest),
 	// so that shifted copies of a conditionally updated value normalise to the same shape
-	if ts.liftDepth < 6 {
+	if ts.lift && ts.liftDepth < 6 && !noLift {
 		var it *Term
 		n := 0
 		for t, k := range lc.atoms {
@@ -863,7 +868,7 @@ func (ts *TermStore) Eq(a, b *Term) *Term {
 	if a.op == OpConst && b.op == OpConst {
 		return ts.Bool(a.val == b.val)
 	}
-	if a.w > 0 && a.op == OpIte && b.op == OpIte && a.args[0] == b.args[0] {
+	if ts.lift && a.w > 0 && a.op == OpIte && b.op == OpIte && a.args[0] == b.args[0] {
 		c := a.args[0]
 		return ts.BOr(ts.BAnd(c, ts.Eq(a.args[1], b.args[1])), ts.BAnd(ts.BNot(c), ts.Eq(a.args[2], b.args[2])))
 	}
@@ -1074,6 +1079,9 @@ func (ts *TermStore) setFact(c *Term, v bool) {
 }
 
 func (ts *TermStore) known(c *Term) (*Term, bool) {
+	if noFacts {
+		return nil, false
+	}
 	if v, ok := ts.facts[c]; ok {
 		return ts.Bool(v), true
 	}
